@@ -1,3 +1,4 @@
 PROPERTY = {'id': 'C13', 'contract_modules': ['doctest_example', 'doctest_part', 'parser'],
-            'functions': ['xdoctest.parser:DoctestParser._package_groups#offsets', 'xdoctest.parser:DoctestParser._package_chunk'],
+            'functions': ['xdoctest.parser:DoctestParser._package_groups#offsets', 'xdoctest.parser:DoctestParser._package_chunk',
+                          'xdoctest.parser:DoctestParser._label_docsrc_lines#labels', 'xdoctest.parser:_complete_source'],
             'clauses': {'P': [], 'T': []}, 'explanation': 'C13 (under construction)'}
